@@ -1241,33 +1241,39 @@ def check_apply_to(ctx, f):
         return ctx.ob("R-FLOW", "apply_to:result", False, "exactly one ResourceSet::new expected", where=b.loc)
     args = K.arg_terms(news[0])
     fams = ["asn", "ipv4", "ipv6"]
+    from engine.rules import variant_edge
+    vals_of = Vals.of(f, b)
     for fam, a in zip(fams, args):
-        vals = s.defs_of_var(a[2]) if a[0] == "var" else [(news[0].bb, a)]
-        ok = len(vals) == 2
-        detail = []
-        g = pred_matcher(r"(AsBlocks|IpBlocks)::contains$", (r"^ResourceSet::%s\(set\)$" % fam, r"^self\.%s↓Some\.0$" % fam))
+        own_rx = r"^(ResourceSet::%s\(set\)|set\.%s)$" % (fam, fam)
+        lim_rx = r"^self\.%s↓Some\.0$" % fam
+        alts = [render(strip_deep(x)) for x in vals_of.alts(a)]
+        detail = list(alts)
+        ok = any(re.match(own_rx, r) for r in alts) and any(re.match(lim_rx, r) for r in alts) and \
+            all(re.match(own_rx, r) or re.match(lim_rx, r) for r in alts)
+        g = pred_matcher(r"(AsBlocks|IpBlocks)::contains$", (own_rx, lim_rx))
+        none_a = pred_matcher(r"Option::is_none$", (r"^self\.%s$" % fam,))
+        none_b = pred_matcher(r"Option::is_some$", (r"^self\.%s$" % fam,), positive=False)
         edges = set()
         for bi, blk in enumerate(b.blocks):
-            if blk["term"]["t"] == "switch":
-                e = guard_edges(b, s, bi, g)
-                if e:
-                    edges.update(e)
-                    fe = switch_bool_edges(b, bi)
-                    false_t = fe[0] if e[0][1] == fe[1] else fe[1]
-                    if false_t in oc.success_reach():
-                        ok = False
-                        detail.append("limit not contained → still succeeds")
-        for bb, t in vals:
-            r = render(strip_deep(t))
-            detail.append(r)
-            if r == "ResourceSet::%s(set)" % fam:
+            if blk["term"]["t"] != "switch" or blk.get("cleanup"):
                 continue
-            if r == "self.%s↓Some.0" % fam:
-                if not edges or bb in b.reachable(0, removed_edges=edges):
+            e = guard_edges(b, s, bi, g)
+            if e:
+                edges.update(e)
+                fe = switch_bool_edges(b, bi)
+                false_t = fe[0] if e[0][1] == fe[1] else fe[1]
+                if false_t in oc.success_reach():
                     ok = False
-                    detail.append("limit returned without the containment test")
-                continue
+                    detail.append("limit not contained → still succeeds")
+            # no limit for this family: nothing to test on this path
+            for e2 in (variant_edge(b, s, bi, r"^self\.%s$" % fam, 0), guard_edges(b, s, bi, none_a), guard_edges(b, s, bi, none_b)):
+                if e2:
+                    edges.update(e2)
+        # the set is put together only after, for this family, the limit was found contained or found absent
+        if not any(guard_edges(b, s, bi, g) for bi, blk in enumerate(b.blocks) if blk["term"]["t"] == "switch" and not blk.get("cleanup")) \
+                or news[0].bb in b.reachable(0, removed_edges=edges):
             ok = False
+            detail.append("limit returned without the containment test")
         ctx.ob("R-GRD", "apply_to:%s" % fam, ok,
                "apply_to returns the %s limit only if the set's %s resources contain it, else the set's own; a limit "
                "outside the set is an error" % (fam, fam), where=b.loc, detail=detail)
